@@ -131,16 +131,19 @@ harness!(se_h_c07_enc, c07_enc, {
     reach(END);
 });
 
-// overflow clause: each query on a fully symbolic length returns None or a value that did not wrap: monotone in the
-// length and not smaller than half the length.
+// overflow clause: each query on fully symbolic lengths a <= b returns None or a value that did not wrap.  A wrapped
+// sum or product is not monotone: f(b) = Some(y) must imply f(a) = Some(x) with x <= y.  (No lower bound in terms of the
+// length is asserted: the replacement decoder legitimately answers a constant.)
 // params: 0 encoding, 1 which query (0..2 decoder: utf8, utf8 w/o replacement, utf16; 3..6 encoder: from utf8 w/o repl,
-//         from utf8 if no unmappables, from utf16 w/o repl, from utf16 if no unmappables), 7 prefix id, 8 BOM mode
+//         from utf8 if no unmappables, from utf16 w/o repl, from utf16 if no unmappables), 7 prefix id, 8 BOM mode,
+//         9 range class (0 = any lengths; 1 = b below 2^40, where nothing may overflow; 2 = a above 2^60)
 harness!(se_h_c07_overflow, c07_overflow, {
     let e = param(0);
     let which = param(1);
     let a = sym_u64(0) as usize;
     let b = sym_u64(1) as usize;
     assume(a <= b);
+    match param(9) { 1 => assume(b < (1usize << 40)), 2 => assume(a > (1usize << 60)), _ => {} }
     let mut d = new_decoder(e, param(8));
     let mut src = [0u8; 8];
     let plen = put_prefix(param(7), &mut src);
@@ -163,10 +166,9 @@ harness!(se_h_c07_overflow, c07_overflow, {
     match fb {
         Some(y) => {
             reach(51);
-            match fa { Some(x) => { check(x <= y, 2); check(x >= a / 2, 3); } None => check(false, 1) }
-            check(y >= b / 2, 3);
+            match fa { Some(x) => { check(x <= y, 2); } None => check(false, 1) }
         }
-        None => { reach(50); if let Some(x) = fa { check(x >= a / 2, 3); } }
+        None => { reach(50); if param(9) == 1 { check(false, 4); } }     // below 2^40 no query may give up
     }
     reach(END);
 });
